@@ -154,8 +154,9 @@ void c20_basis(vf::Tape & t, vf::Ctx & ctx)
     ctx.require("non-negative on [0,1]", mn >= -1e-12L, vf::str(static_cast<double>(mn)));
     // cumulative basis: column j = sum_{l >= j} b_l; first column is the constant 1
     constexpr auto C = smooth::polynomial_cumulative_basis<Basis, K>();
-    bool first_const = C[0][0] == 1.0;
-    for (std::size_t r = 1; r <= K; ++r) first_const = first_const && std::abs(C[r][0]) <= 1e-12;
+    // "to 1e-9": the first column is the sum of all basis columns, which is 1 only up to rounding for K >= 6
+    bool first_const = std::abs(C[0][0] - 1.0) <= 1e-9;
+    for (std::size_t r = 1; r <= K; ++r) first_const = first_const && std::abs(C[r][0]) <= 1e-9;
     ctx.require("cumulative basis starts with the constant 1", first_const);
     LD cv[K + 1], cs[K + 1];
     horner_all<K>(C, u, cv, cs);
